@@ -116,3 +116,58 @@ func c02Reply(fn byte) (*vDriver, *uhppote, uint32, []byte) {
 	d := &vDriver{seq: [][]byte{r}}
 	return d, vClient(d), id, r
 }
+
+// specStatus: classification of a 64-byte status / event payload (GetStatus reply layout, appendix A).
+type specStatus struct {
+	malformed bool // a boolean byte other than 0/1, a non-decimal BCD nibble, an impossible system date or time
+	ts        specDateTime
+	sdZero    bool
+	yy        int
+	year, mo, dd, hh, mi, ss int
+}
+
+func specStatusOf(r []byte) specStatus {
+	s := specStatus{ts: specDateTime7(r[20:27])}
+	flagsOK := specBoolOK(r[13])
+	for i := 28; i <= 35; i++ {
+		if !specBoolOK(r[i]) {
+			flagsOK = false
+		}
+	}
+	s.sdZero = specAllZero(r[51:54])
+	sdDigits, stDigits := specNibblesOK(r[51:54]), specNibblesOK(r[37:40])
+	s.yy, s.mo, s.dd = specBCD2(r[51]), specBCD2(r[52]), specBCD2(r[53])
+	s.hh, s.mi, s.ss = specBCD2(r[37]), specBCD2(r[38]), specBCD2(r[39])
+	s.year = 2000 + s.yy
+	if s.yy >= 69 {
+		s.year = 1900 + s.yy // two-digit year pivot of the standard library (outside the protocol: not asserted)
+	}
+	sdValid := sdDigits && verifValidDate(s.year, s.mo, s.dd)
+	stValid := stDigits && s.hh <= 23 && s.mi <= 59 && s.ss <= 59
+	s.malformed = !flagsOK || (!s.ts.digits && !s.ts.zero) || (!s.sdZero && !sdValid) || !stValid
+	return s
+}
+
+// checkStatus: st must be the protocol decoding of the (well-formed) payload r.
+func checkStatus(st *types.Status, r []byte, s specStatus, what string) {
+	verifAssert(uint32(st.SerialNumber) == specGet32(r, 4) && st.SystemError == r[36] && st.SequenceId == specGet32(r, 40) &&
+		st.SpecialInfo == r[48] && st.RelayState == r[49] && st.InputState == r[50], what+": scalar fields from their protocol offsets")
+	ds, db := st.DoorState, st.DoorButton
+	verifAssert(len(ds) == 4 && ds[1] == (r[28] == 1) && ds[2] == (r[29] == 1) && ds[3] == (r[30] == 1) && ds[4] == (r[31] == 1), what+": door states from offsets 28..31")
+	verifAssert(len(db) == 4 && db[1] == (r[32] == 1) && db[2] == (r[33] == 1) && db[3] == (r[34] == 1) && db[4] == (r[35] == 1), what+": door buttons from offsets 32..35")
+	sys := time.Time(st.SystemDateTime)
+	if s.sdZero {
+		verifAssert(st.SystemDateTime.IsZero(), what+": system date 00 00 00 gives the zero system date-time")
+	} else if s.yy < 69 {
+		verifAssert(sys.Year() == s.year && int(sys.Month()) == s.mo && sys.Day() == s.dd && sys.Hour() == s.hh && sys.Minute() == s.mi && sys.Second() == s.ss,
+			what+": system date-time is the combination of system date and system time")
+	}
+	e := st.Event
+	if specGet32(r, 8) == 0 {
+		verifAssert(e.Index == 0 && e.Type == 0 && !e.Granted && e.Door == 0 && e.Direction == 0 && e.CardNumber == 0 && e.Reason == 0 && e.Timestamp.IsZero(), what+": no event when the event index is 0")
+	} else {
+		verifAssert(e.Index == specGet32(r, 8) && e.Type == r[12] && e.Granted == (r[13] == 1) && e.Door == r[14] && e.Direction == r[15] &&
+			e.CardNumber == specGet32(r, 16) && e.Reason == r[27], what+": event fields from their protocol offsets")
+		checkDateTime(e.Timestamp, s.ts, what+" event timestamp")
+	}
+}
